@@ -532,3 +532,43 @@ def check_archive(ctx, rule):
     ctx.ob(rule, rx, "file zones pickle as (class, (None, filename), state): re-creation skips reading and restores the parsed tables", "return (self.__class__, (None, self._filename), self.__dict__)" in src(rx.node), construct="tzfile.__reduce_ex__")
     init = prog.method(tf.qualname, "__init__", rule)
     ctx.ob(rule, init, "a tzfile built with fileobj=None reads nothing", "if fileobj is not None:" in src(init.node), construct="tzfile.__init__ fileobj None path")
+
+
+WALL_LOOP_REF = """
+for i, tti in enumerate(out.trans_idx):
+    offset = tti.offset
+    dstoffset = 0
+    if lastdst is not None:
+        if tti.isdst:
+            if not lastdst:
+                dstoffset = offset - lastoffset
+            if not dstoffset and lastdstoffset:
+                dstoffset = lastdstoffset
+            tti.dstoffset = datetime.timedelta(seconds=dstoffset)
+            lastdstoffset = dstoffset
+    baseoffset = offset - dstoffset
+    adjustment = baseoffset
+    if (lastbaseoffset is not None and baseoffset != lastbaseoffset and tti.isdst != lastdst):
+        adjustment = lastbaseoffset
+    lastdst = tti.isdst
+    lastoffset = offset
+    lastbaseoffset = baseoffset
+    out.trans_list.append(out.trans_list_utc[i] + adjustment)
+"""
+
+
+def check_walltime_loop(ctx, rule):
+    """The loop of _read_tzfile that derives each daylight period's saving and the wall-clock transition times: one
+    symbolic iteration (stores, the appended wall time and the values handed to the next iteration) against its table."""
+    from . import summ
+    rt = ctx.prog.func("tz.tz.tzfile._read_tzfile", rule)
+    loops = [n for n in walk_local(rt.node) if isinstance(n, ast.For) and any(
+        isinstance(x, ast.Attribute) and x.attr == "dstoffset" and isinstance(x.ctx, ast.Store) for b_ in n.body for x in ast.walk(b_)) and any(
+        isinstance(x, ast.Attribute) and x.attr == "isdst" and isinstance(x.ctx, ast.Load) for b_ in n.body for x in ast.walk(b_))]
+    if len(loops) != 1:
+        raise AnalysisError(rule, rt.qualname, "expected one loop assigning <period>.dstoffset, found %d" % len(loops))
+    summ.check_ref(ctx, rule, [loops[0]], "a daylight period's saving is the offset change at a standard->daylight transition, else the previous daylight period's "
+                   "saving when that is non-zero (a daylight->daylight change keeps the saving); wall-clock transition times are UTC times plus the base "
+                   "offset in force (the previous base offset when the base offset changes together with the daylight flag)", WALL_LOOP_REF,
+                   construct="_read_tzfile: saving / wall-time loop", where=rt, alpha="auto", loops="body",
+                   outcome=summ.outcome_with(stores=lambda t: True, calls=lambda t: t.endswith(".append"), carries=lambda t: True, result=False))
